@@ -134,6 +134,12 @@ impl BitPackedInts {
         assert(view_of(self.data@.take(self.nw()), self.bits_per_value, self.count) =~= view_of(self.data@, self.bits_per_value, self.count));
     }
 
+    // callee contracts proved in unit BITPACK (post#count, post#wf, post#empty_has_width_zero); restated here so that a from_bytes that builds its
+    // result through the constructors stays decidable
+    #[verifier::external_body] pub fn pack(values: &[u64]) -> (r: Self)
+        ensures r.count == values@.len(), r.bits_per_value <= 64, r.data@.len() >= r.nw(), values@.len() == 0 ==> r.bits_per_value == 0
+    { unimplemented!() }
+
     @@BitPackedInts::to_bytes@@
 
     @@BitPackedInts::from_bytes@@
@@ -278,6 +284,7 @@ def build(repo):
                    ('external_body get_le_u32', 'R24: as get_le_u64, 4 bytes'), ('external_body suffix', 'R25: `&b[a..]`'),
                    ('external_body ExIoError', 'R26: io::Error is opaque'), ('external_type_specification ExIoError', 'R26: declares std::io::Error to Verus'), ('external_body io_invalid_data', 'R26: the error value is not observed, only Ok/Err')]:
         u.trust(w, why)
+    u.trust('external_body BitPackedInts::pack', 'callee contract proved in unit BITPACK (pack::post#count / #wf / #empty_has_width_zero), restated')
     u.assume('usize is 64 bits (`global size_of usize == 8`)')
     u.item(BV, 'struct', 'BitVector').D1(keep_derive=set()).V1()
     u.item(BP, 'struct', 'BitPackedInts').D1(keep_derive=set()).V1()
